@@ -35,19 +35,20 @@ def add(prop, category, text, note, technique, ref, engine):
     }
 
 SIMNOTE = ('Trusted: the simulated threading/time semantics of /verif/vsim (unfair locks, FIFO notify, no spurious wake-ups), '
-           'pre-emption only at synchronisation points (plus source lines of queue.py/env.py/scheduler.py in line mode), '
+           'pre-emption only at synchronisation points (plus source lines of queue.py/env.py/scheduler.py, and run.py/path.py/code.py for C19, in line mode), '
            'probe tasks standing in for real tasks. Sampling of schedules: a clean batch is evidence, not proof.')
 
 add('C01', 'exploration',
-    'Seeded search over interleavings of the real queue backend (master + 1-5 workers) on generated hard/soft graphs with scripted task outcomes; '
+    'Seeded search over interleavings of the real queue backend (master + 1-5 workers) on generated hard/soft graphs (handed over node by node, as dependency dictionaries, through the tasks\' dependency sets, or with an embedded sub-graph node; node order and hashes are a seeded permutation) with scripted task outcomes '
+    '(success, exception, FAILED, malformed returns, updates that cannot be merged), from an empty environment or one holding DONE entries of an earlier run; '
     'probe tasks check at the first instruction of do() that every dependency is final, not running, and that its complete update is readable. '
     'Exploration is the right level: the property quantifies over all schedules, which can be sampled densely (about 10^5 executions per minute) but not enumerated.',
     SIMNOTE, 'deterministic simulation: baton-passing thread simulator, seeded random-walk / PCT / stall-injection schedules', 'DESIGN.md 4 C01', 'vsim-threads')
 add('C02', 'exploration',
-    'Same simulated executions, compared with a sequential reference model of the graph (final status map, execution counters, status type), for well-formed and malformed task results, under many schedules and worker counts.',
+    'Same simulated executions, compared with a sequential reference model of the graph (final status map, execution counters, status type), for well-formed, malformed and unmergeable task results, under many schedules and worker counts; a run that never ends leaves tasks without a final state and is reported here too.',
     SIMNOTE, 'deterministic simulation + sequential reference model of the task graph', 'DESIGN.md 4 C02', 'vsim-threads')
 add('C03', 'exploration',
-    'The simulator decides termination itself: deadlock (nothing runnable, someone unfinished), leaked workers (caller returned or raised, someone blocked forever), no progress (step budget), for acyclic and cyclic graphs, empty and pre-populated environments, malformed results.',
+    'The simulator decides termination itself: deadlock (nothing runnable, someone unfinished), leaked workers (caller returned or raised, someone blocked forever), no progress (step budget), for acyclic and cyclic graphs, empty and pre-populated environments, malformed and unmergeable results, a second schedule() on the same backend, and a worker thread whose start() fails (injected fault); after the call the work queue must hold neither items nor unfinished counts.',
     SIMNOTE, 'deterministic simulation with deadlock / leak detection and bounded liveness', 'DESIGN.md 4 C03', 'vsim-threads')
 
 manifest = {
